@@ -8,6 +8,7 @@
 (* Layout (abstract positions: row*10 + column, one row per source line):  *)
 (*                                                                         *)
 (*   file 1                                   file 2                       *)
+(*     5  <F0d> comment row, then a blank line (detached from the clause)  *)
 (*    10  <F0>  comment row                   1010 <G0> comment row        *)
 (*    20  package clause                      1020 package clause          *)
 (*    30  <D1>  comment row                   1040 func fn4 (...) {        *)
@@ -42,16 +43,18 @@
 (* up to the *start* of the next node - pinned code, D6), TrailAfterDecl   *)
 (* (a comment trailing the last line of a top-level declaration is applied *)
 (* to the next declaration - pinned code, D7), OnceConsumesSlot (a         *)
-(* suppressed first use still uses up the once-per-file report).           *)
+(* suppressed first use still uses up the once-per-file report),           *)
+(* FileDocOnly (only a comment attached to the package clause is           *)
+(* file-level), LastMarkerOnly (see Contained).                            *)
 (***************************************************************************)
 EXTENDS Codes, Integers, TLC, Json
 
 CONSTANTS Mode, Deviations, Emit
 
-VARIABLES sc,      \* scenario [kind, slot, list]
-          ph, cls, rng, out
+VARIABLES sc,      \* scenario [kind, slot, slot2, list]: one or two comments (slot2 may be "none") carrying the same code list
+          ph, cls, rng, cls2, rng2, out
 
-vars == <<sc, ph, cls, rng, out>>
+vars == <<sc, ph, cls, rng, cls2, rng2, out>>
 
 (* program kinds: code, anchor column class, second-line anchor, once-per-file *)
 Kinds == {"IMM01", "IMM01mid", "IMM03", "CTOR01", "CTOR02", "CTOR03", "TONL01", "TONL02", "TONL03", "PKGO01", "PKGO02", "PKGO03"}
@@ -72,9 +75,9 @@ StmtOf(a) == CASE a = "a11" -> 11 [] a \in {"a12", "a12b"} -> 12 [] a = "a13" ->
 \* source order of the anchors of a file (for the once-per-file rule)
 Before(a, b, k) == FileOf(PosOf(a, k)) = FileOf(PosOf(b, k)) /\ PosOf(a, k) < PosOf(b, k)
 
-Slots == {"none", "F0", "G0", "D1", "D2", "D3", "D5", "S11", "S12", "S13", "S31", "E1",
+Slots == {"none", "F0", "F0d", "G0", "D1", "D2", "D3", "D5", "S11", "S12", "S13", "S31", "E1",
           "T11", "T12a", "T12b", "T13", "T31", "TD1", "TD2", "TD5"}
-SlotPos(s) == CASE s = "F0" -> 10 [] s = "G0" -> 1010 [] s = "D1" -> 30 [] s = "D2" -> 140 [] s = "D3" -> 160
+SlotPos(s) == CASE s = "F0" -> 10 [] s = "F0d" -> 5 [] s = "G0" -> 1010 [] s = "D1" -> 30 [] s = "D2" -> 140 [] s = "D3" -> 160
                 [] s = "S11" -> 50 [] s = "S12" -> 70 [] s = "S13" -> 100 [] s = "S31" -> 180 [] s = "E1" -> 120
                 [] s = "T11" -> 69 [] s = "T12a" -> 89 [] s = "T12b" -> 99 [] s = "T13" -> 119 [] s = "T31" -> 199
                 [] s = "TD1" -> 139 [] s = "TD2" -> 159 [] s = "D5" -> 1080 [] s = "TD5" -> 1099 [] s = "none" -> 0
@@ -103,7 +106,7 @@ ListMatches(l, c) == \E i \in 1..Len(l) : Norm(l[i], c) # "" /\ Matches(Norm(l[i
 (* L1: scope by structure                                                  *)
 (***************************************************************************)
 InScope(s, a, k) ==
-  CASE s = "F0" -> FileOf(PosOf(a, k)) = 1
+  CASE s \in {"F0", "F0d"} -> FileOf(PosOf(a, k)) = 1
     [] s = "G0" -> FileOf(PosOf(a, k)) = 2
     [] s = "D1" -> DeclOf(a) = 1 [] s = "D2" -> DeclOf(a) = 2 [] s = "D3" -> DeclOf(a) = 3 [] s = "D5" -> DeclOf(a) = 5
     [] s = "S11" -> StmtOf(a) = 11 [] s = "S12" -> StmtOf(a) = 12 [] s = "S13" -> StmtOf(a) = 13 [] s = "S31" -> StmtOf(a) = 31
@@ -111,7 +114,9 @@ InScope(s, a, k) ==
     [] Trailing(s) -> LineStart(PosOf(a, k)) = LineStart(SlotPos(s))
     [] OTHER -> FALSE
 
-Suppressed1(a) == sc.slot # "none" /\ InScope(sc.slot, a, sc.kind) /\ ListMatches(sc.list, CodeOfKind(sc.kind))
+Suppressed1(a) == /\ ListMatches(sc.list, CodeOfKind(sc.kind))
+                  /\ \/ (sc.slot # "none" /\ InScope(sc.slot, a, sc.kind))
+                     \/ (sc.slot2 # "none" /\ InScope(sc.slot2, a, sc.kind))
 L1 == IF Once(sc.kind)
         THEN {a \in Anchors(sc.kind) : ~Suppressed1(a) /\ \A b \in Anchors(sc.kind) : Before(b, a, sc.kind) => Suppressed1(b)}
         ELSE {a \in Anchors(sc.kind) : ~Suppressed1(a)}
@@ -121,17 +126,16 @@ L1 == IF Once(sc.kind)
 (***************************************************************************)
 InitScenario ==
   \/ /\ Mode = "all"
-     /\ \E k \in Kinds, s \in Slots, l \in Lists : sc = [kind |-> k, slot |-> s, list |-> l]
+     /\ \E k \in Kinds, s \in Slots, s2 \in {"none", "F0", "D1", "S12", "T13"}, l \in Lists :
+          /\ (s2 # "none" => s \notin {"none", s2})
+          /\ sc = [kind |-> k, slot |-> s, slot2 |-> s2, list |-> l]
   \/ /\ Mode = "quick"
-     /\ \E k \in Kinds, s \in Slots, l \in {<<"exact">>, <<"cat">>, <<"othercat", "exact">>, <<"othercode">>} :
-          sc = [kind |-> k, slot |-> s, list |-> l]
+     /\ \E k \in Kinds, s \in Slots, s2 \in {"none", "D1", "S12"}, l \in {<<"exact">>, <<"cat">>, <<"othercat", "exact">>, <<"othercode">>} :
+          /\ (s2 # "none" => s \notin {"none", s2})
+          /\ sc = [kind |-> k, slot |-> s, slot2 |-> s2, list |-> l]
 
 Init == /\ InitScenario
-        /\ ph = "classify" /\ cls = "?" /\ rng = <<0, 0>> /\ out = {}
-
-CPos == SlotPos(sc.slot)
-CEnd == SlotPos(sc.slot)      \* the comment ends on its own row; nothing follows it there
-CFile == FileOf(CPos)
+        /\ ph = "classify" /\ cls = "?" /\ rng = <<0, 0>> /\ cls2 = "?" /\ rng2 = <<0, 0>> /\ out = {}
 
 \* the top-level declaration whose span contains p, or 0
 Enclosing(p) == IF \E d \in 1..5 : DeclSpan(d)[1] <= p /\ p <= DeclSpan(d)[2]
@@ -149,33 +153,46 @@ NextStmt(p, d) == LET ss == {s \in {11, 12, 13, 31} : StmtSpan(s)[1] > p /\ Stmt
 CodeOnRow(p, d) == \E s \in {11, 12, 13, 31} : StmtSpan(s)[1] < p /\ LineStart(StmtSpan(s)[1]) <= LineStart(p) /\ LineStart(p) <= LineStart(StmtSpan(s)[2])
                                                 /\ StmtSpan(s)[1] >= DeclSpan(d)[1] /\ StmtSpan(s)[2] <= DeclSpan(d)[2]
 
+ClsOf(slot) ==
+  LET p == SlotPos(slot) IN
+  IF slot = "none" THEN "nocomment"
+  ELSE IF p < PackagePos(FileOf(p)) /\ ~("FileDocOnly" \in Deviations /\ slot = "F0d") THEN "file"
+  ELSE IF p < PackagePos(FileOf(p)) THEN "lone"          \* (deviation) a detached comment before the clause only reaches the import block
+  ELSE IF Enclosing(p) # 0 THEN (IF CodeOnRow(p, Enclosing(p)) THEN "inline" ELSE "stmt")
+  ELSE IF DeclEndingOnRow(p) # 0 /\ ~("TrailAfterDecl" \in Deviations) THEN "inline"
+  ELSE IF NextDecl(p) # 0 THEN "decl"
+  ELSE "lone"
+
+RangeOf(slot, c) ==
+  LET p == SlotPos(slot) IN
+  CASE c = "nocomment" -> <<1, 0>>                       \* empty range
+    [] c = "file" -> <<p, FileEnd(FileOf(p))>>
+    [] c = "inline" -> <<LineStart(p), p>>
+    [] c = "decl" -> <<p, DeclSpan(NextDecl(p))[2]>>
+    [] c = "stmt" -> LET s == NextStmt(p, Enclosing(p)) IN
+                     IF s = 0 THEN <<p, p>>
+                     ELSE IF "RangeToNodeStart" \in Deviations THEN <<p, StmtSpan(s)[1]>>
+                     ELSE <<p, StmtSpan(s)[2]>>
+    [] c = "lone" -> <<p, p>>
+
 Classify ==
   /\ ph = "classify"
-  /\ cls' = IF sc.slot = "none" THEN "nocomment"
-            ELSE IF CPos < PackagePos(CFile) THEN "file"
-            ELSE IF Enclosing(CPos) # 0
-              THEN (IF CodeOnRow(CPos, Enclosing(CPos)) THEN "inline" ELSE "stmt")
-            ELSE IF DeclEndingOnRow(CPos) # 0 /\ ~("TrailAfterDecl" \in Deviations) THEN "inline"
-            ELSE IF NextDecl(CPos) # 0 THEN "decl"
-            ELSE "lone"
+  /\ cls' = ClsOf(sc.slot) /\ cls2' = ClsOf(sc.slot2)
   /\ ph' = "range"
-  /\ UNCHANGED <<sc, rng, out>>
+  /\ UNCHANGED <<sc, rng, rng2, out>>
 
 ComputeRange ==
   /\ ph = "range"
-  /\ rng' = CASE cls = "nocomment" -> <<1, 0>>                       \* empty range
-              [] cls = "file" -> <<CPos, FileEnd(CFile)>>
-              [] cls = "inline" -> <<LineStart(CPos), CEnd>>
-              [] cls = "decl" -> <<CPos, DeclSpan(NextDecl(CPos))[2]>>
-              [] cls = "stmt" -> LET s == NextStmt(CPos, Enclosing(CPos)) IN
-                                 IF s = 0 THEN <<CPos, CEnd>>
-                                 ELSE IF "RangeToNodeStart" \in Deviations THEN <<CPos, StmtSpan(s)[1]>>
-                                 ELSE <<CPos, StmtSpan(s)[2]>>
-              [] cls = "lone" -> <<CPos, CEnd>>
+  /\ rng' = RangeOf(sc.slot, cls) /\ rng2' = RangeOf(sc.slot2, cls2)
   /\ ph' = "filter"
-  /\ UNCHANGED <<sc, cls, out>>
+  /\ UNCHANGED <<sc, cls, cls2, out>>
 
-Contained(p) == rng[1] <= p /\ p <= rng[2]
+\* IgnoreSet.Contains: some marker of a matching token covers the position ("LastMarkerOnly": only the marker of that token
+\* that starts last at or before the position is consulted - nested scopes of the same token hide each other)
+InR(r, p) == r[1] <= p /\ p <= r[2]
+Contained(p) == IF "LastMarkerOnly" \in Deviations /\ rng[1] <= rng[2] /\ rng2[1] <= rng2[2] /\ rng[1] <= p /\ rng2[1] <= p
+                  THEN (IF rng[1] >= rng2[1] THEN InR(rng, p) ELSE InR(rng2, p))
+                  ELSE InR(rng, p) \/ InR(rng2, p)
 Supp2(a) == Contained(PosOf(a, sc.kind)) /\ ListMatches(sc.list, CodeOfKind(sc.kind))
 
 Filter ==
@@ -186,7 +203,7 @@ Filter ==
                      ELSE {a \in Anchors(sc.kind) : ~Supp2(a) /\ \A b \in Anchors(sc.kind) : Before(b, a, sc.kind) => Supp2(b)}
               ELSE {a \in Anchors(sc.kind) : ~Supp2(a)}
   /\ ph' = "done"
-  /\ UNCHANGED <<sc, cls, rng>>
+  /\ UNCHANGED <<sc, cls, rng, cls2, rng2>>
 
 Finished == ph = "done" /\ UNCHANGED vars
 
@@ -206,7 +223,7 @@ NoMatchIdentity == (Done /\ ~ListMatches(sc.list, CodeOfKind(sc.kind))) =>
                       out = (IF Once(sc.kind) THEN {a \in Anchors(sc.kind) : \A b \in Anchors(sc.kind) : ~Before(b, a, sc.kind)} ELSE Anchors(sc.kind))
 
 EmitInv == (Emit /\ Done) =>
-   PrintT("@E " \o ToJson([kind |-> sc.kind, slot |-> sc.slot, list |-> sc.list, cls |-> cls, expect |-> out,
+   PrintT("@E " \o ToJson([kind |-> sc.kind, slot |-> sc.slot, slot2 |-> sc.slot2, list |-> sc.list, cls |-> cls, expect |-> out,
                             base |-> (IF Once(sc.kind) THEN {a \in Anchors(sc.kind) : \A b \in Anchors(sc.kind) : ~Before(b, a, sc.kind)}
                                       ELSE Anchors(sc.kind))]))
 =============================================================================
